@@ -17,7 +17,7 @@ import (
 )
 
 type c21Op struct {
-	Kind  string `json:"k"` // "new", "revert", "sleep"
+	Kind  string `json:"k"` // "new", "revert", "alias", "sleep"
 	DurMS int    `json:"d,omitempty"`
 }
 
@@ -27,15 +27,15 @@ type c21Waiter struct {
 }
 
 type c21Case struct {
-	Cfg         verifsim.Config `json:"cfg"`
-	ShortMS     int             `json:"short_ms"`
-	LongMS      int             `json:"long_ms"`
-	InitialPub  bool            `json:"initial_published"`
-	Updaters    [][]c21Op       `json:"updaters"`
-	Waiters     []c21Waiter     `json:"waiters"`
-	CloseAfter  int             `json:"close_after_ms"` // <0: no Close task
-	PubFail     []bool          `json:"pub_fail"`
-	PubSlowMS   []int           `json:"pub_slow_ms"`
+	Cfg        verifsim.Config `json:"cfg"`
+	ShortMS    int             `json:"short_ms"`
+	LongMS     int             `json:"long_ms"`
+	InitialPub bool            `json:"initial_published"`
+	Updaters   [][]c21Op       `json:"updaters"`
+	Waiters    []c21Waiter     `json:"waiters"`
+	CloseAfter int             `json:"close_after_ms"` // <0: no Close task
+	PubFail    []bool          `json:"pub_fail"`
+	PubSlowMS  []int           `json:"pub_slow_ms"`
 }
 
 func c21Cid(i int) cid.Cid {
@@ -54,7 +54,7 @@ func c21Gen(t *rapid.T, tier string) any {
 	}
 	nu := rapid.IntRange(1, 2).Draw(t, "nupdaters")
 	opGen := rapid.Custom(func(t *rapid.T) c21Op {
-		k := rapid.SampledFrom([]string{"new", "new", "new", "revert", "sleep"}).Draw(t, "kind")
+		k := rapid.SampledFrom([]string{"new", "new", "new", "revert", "alias", "sleep"}).Draw(t, "kind")
 		op := c21Op{Kind: k}
 		if k == "sleep" {
 			op.DurMS = rapid.SampledFrom([]int{1, c.ShortMS / 2, c.ShortMS, c.LongMS, 2 * c.LongMS}).Draw(t, "dur")
@@ -135,6 +135,7 @@ func c21Run(t *testing.T, ci any, trace bool) *verifsim.Result {
 	c := ci.(*c21Case)
 	return verifsim.Run(t, c.Cfg, trace, func(s *verifsim.Sim) {
 		rec := &c21Rec{s: s, vals: map[string]int{}}
+		aliasCid := map[int]cid.Cid{} // values whose CID is an alias (same multihash, other codec) of an earlier value's
 		short, long := time.Duration(c.ShortMS)*time.Millisecond, time.Duration(c.LongMS)*time.Millisecond
 		settling := false
 		npub := 0
@@ -218,7 +219,7 @@ func c21Run(t *testing.T, ci any, trace bool) *verifsim.Result {
 					switch op.Kind {
 					case "sleep":
 						time.Sleep(time.Duration(op.DurMS) * time.Millisecond)
-					case "new", "revert":
+					case "new", "revert", "alias":
 						val := rec.nextVal
 						if op.Kind == "revert" {
 							if lv := rec.lastOK(1 << 62); lv >= 0 {
@@ -229,6 +230,24 @@ func c21Run(t *testing.T, ci any, trace bool) *verifsim.Result {
 							rec.nextVal++
 						}
 						cv := c21Cid(val)
+						if op.Kind == "alias" {
+							// a new value (another CID, never used before in this run) that shares
+							// its multihash with the last published one: same bytes, other codec
+							if lv := rec.lastOK(1 << 62); lv >= 0 {
+								base := c21Cid(lv)
+								if bc, ok := aliasCid[lv]; ok {
+									base = bc
+								}
+								for _, codec := range []uint64{cid.DagProtobuf, cid.DagCBOR, cid.DagJSON, cid.GitRaw, cid.Libp2pKey} {
+									cand := cid.NewCidV1(codec, base.Hash())
+									if _, used := rec.vals[cand.KeyString()]; !used && !cand.Equals(base) {
+										cv = cand
+										aliasCid[val] = cand
+										break
+									}
+								}
+							}
+						}
 						rec.vals[cv.KeyString()] = val
 						u := &c21Update{val: val, inv: s.Seq()}
 						rec.updates = append(rec.updates, u)
